@@ -11,6 +11,8 @@ OUTSTANDING = {'req1': '/home', 'req2': '/other'}
 # what the application stored per outstanding request id: URLs, or nothing for the first request (doc['ovals'])
 OVALS = {'urls': OUTSTANDING, 'none-first': {'req1': None, 'req2': '/other'}, 'empty-first': {'req1': '', 'req2': '/other'}}
 REGEX = r'^https://spx\.example/acs/.*$'
+# the option is applied with search semantics: a pattern that is not anchored at the start is as good ('mid')
+REGEXES = {True: REGEX, 'mid': r'spx\.example/acs/[a-z]+$'}
 BINDING_ARTIFACT = world.BINDING_ARTIFACT
 ACS_ARTIFACT = 'https://spx.example/acs/artifact'
 OWN = {BINDING_HTTP_POST: [ACS_POST], BINDING_HTTP_REDIRECT: [ACS_REDIRECT], BINDING_SOAP: [ACS_SOAP], BINDING_ARTIFACT: [ACS_ARTIFACT]}
@@ -65,7 +67,7 @@ def sp_for(allow, regex, unsigned=False):
         if unsigned:
             opts['want_response_signed'] = False     # over SOAP the documents are unsigned (the reader re-serialises the body)
         if regex:
-            opts['valid_destination_regex'] = REGEX
+            opts['valid_destination_regex'] = REGEXES[regex]
         _sp[k] = world.make_sp(TMP[0], acs=ACS_ALL, **opts)
     return _sp[k]
 
@@ -150,7 +152,7 @@ def required_reject(doc, allow, conv, regex):
     d = dest_value(doc['dest'], b)
     if browser and d is not None:
         if regex:
-            if not re.search(REGEX, d) and d not in OWN[b]:
+            if not re.search(REGEXES[regex], d) and d not in OWN[b]:
                 why.append('b-destination-not-mine')
         elif d not in OWN[b]:
             why.append('b-destination-not-mine')
@@ -176,7 +178,7 @@ def _evaluate(doc):
     env.Clock.set(env.BASE)
     xml = build(doc)
     out = []
-    for allow, conv, regex in itertools.product((False, True), (False, True, 'partial'), (False, True)):
+    for allow, conv, regex in itertools.product((False, True), (False, True, 'partial'), (False, True, 'mid')):
         if doc.get('prime'):
             _sp.pop((allow, regex), None)
         sp = sp_for(allow, regex, unsigned=(doc['binding'] == BINDING_SOAP))
